@@ -631,6 +631,21 @@ func (g *gen) jwtHS() {
 				g.rep.Count("jwt-hs256:header")
 			}
 		}
+		// what Header() hands out is changed by the caller (a Signer wrapper setting its own kid/typ/alg):
+		// the verifier stays pinned to what it was built with
+		for _, pk := range []jwt.Header{
+			{Alg: "HS256", Typ: "JWT", KeyID: kid + "2"}, {Alg: "none", Typ: "JWT", KeyID: kid},
+			{Alg: "HS256", Typ: "", KeyID: kid}, {Alg: "RS256", Typ: "JWS", KeyID: "other"},
+		} {
+			sfx = fmt.Sprintf(" poke=%s/%s/%s", hx.Hex([]byte(pk.Alg)), hx.Hex([]byte(pk.Typ)), hx.Hex([]byte(pk.KeyID)))
+			chk(tok, k, kid, mid)
+			// a token whose header is the poked one, MAC right: refused by the verifier for `kid`
+			if t2, err := jwt.EncodeAndSign(bg, cl, &rawSigner{h: pk, sig: func(d []byte) []byte { return hmacOf(k, d) }}); err == nil {
+				chk(t2, k, kid, mid)
+			}
+			g.rep.Count("jwt-hs256:poke")
+		}
+		sfx = ""
 		// alg none with empty signature
 		t3, _ := jwt.EncodeAndSign(bg, cl, &rawSigner{h: jwt.Header{Alg: "none", Typ: "JWT", KeyID: kid}, sig: func([]byte) []byte { return nil }})
 		chk(t3, k, kid, mid)
@@ -650,15 +665,17 @@ func (s *fixedStore) Save(v interface{}) error { b, err := json.Marshal(v); s.bs
 func (s *fixedStore) Load(v interface{}) error { return json.Unmarshal(s.bs, v) }
 
 // core builds an identity core (the issuing side) holding the given keys.
-func (g *gen) core(ks []keySpec, now func() time.Time) identity.Core {
+func (g *gen) core(ks []keySpec, now func() time.Time) identity.Core { return buildCore(g.c, ks, now) }
+
+func buildCore(c *ctx, ks []keySpec, now func() time.Time) identity.Core {
 	type priv struct{ ID, Key string }
 	var data struct {
 		Identity    *identity.Identity
 		PrivateKeys []priv
 	}
-	data.Identity = g.c.card(ks)
+	data.Identity = c.card(ks)
 	for _, k := range ks {
-		if rk := g.c.keys[k.label]; rk != nil {
+		if rk := c.keys[k.label]; rk != nil {
 			data.PrivateKeys = append(data.PrivateKeys, priv{k.id, rk.priS})
 		}
 	}
@@ -798,6 +815,14 @@ func (g *gen) jwtRS() {
 		} else {
 			chkSelf(tok, ks, mid, user, host)
 		}
+		// the identity handed out by the card is changed by the caller: the verifier's next look-up is unaffected
+		sfx = " poke=1"
+		chk(tok, ks, mid)
+		chk(tok, ks, exp*1e9+1)
+		if self {
+			chkSelf(tok, ks, mid, user, host)
+		}
+		sfx = ""
 		// key rules: unknown id, other type, validity moved, key material of another key, no keys, unparsable key
 		main := ks[len(ks)-1]
 		variants := [][]keySpec{
